@@ -21,7 +21,7 @@ SELECTABLE = ("grid1", "grid2", "grid3", "oned", "rule", "periodic", "intgrid")
 QUERYABLE = ("grid1", "grid2", "grid3", "oned", "rule", "atom", "mol", "uniform", "tensor", "local", "angular", "shell", "intgrid")
 CENTER_KINDS = ("random", "onpoint", "far", "centroid", "badshape")
 RADIUS_KINDS = ("zero", "tiny", "q10", "q50", "q90", "huge", "inf", "neg", "nan", "exact", "just_below", "just_above")
-INDEX_KINDS = ("int", "negint", "npint", "npint32", "slice", "slice_step", "intarray", "mask", "list", "uintarray", "negarray", "boollist", "lastint")
+INDEX_KINDS = ("int", "negint", "npint", "npint32", "slice", "slice_step", "intarray", "mask", "list", "uintarray", "negarray", "boollist", "lastint", "slice_rev", "slice_neg")
 SET_KINDS = ("translate", "scale", "permute", "fresh", "badshape", "same")
 
 
@@ -579,6 +579,12 @@ def _make_index(ikind, n, seed):
         k = int(r.randint(1, min(n, 5) + 1))
         a = [int(x) for x in r.randint(0, n, size=k)]
         return a, np.array(a)
+    if ikind == "slice_rev":
+        st = -int(r.randint(1, 3))
+        return slice(None, None, st), np.arange(n)[::st]
+    if ikind == "slice_neg":
+        lo = -int(r.randint(1, n + 1))
+        return slice(lo, None), np.arange(n)[lo:]
     if ikind == "uintarray":
         k = int(r.randint(1, min(n, 6) + 1))
         a = r.randint(0, min(n, 255), size=k).astype(np.uint8)
